@@ -52,6 +52,7 @@ def _case(draw, n_min=1, n_max=4):
     m = draw(gen.eam_model("eam", n_min, n_max, depth=1, pycallables=not route.startswith(("potable", "main"))))
     m["route"] = route
     m["share_callables"] = draw(st.booleans())
+    m["int_zero"] = draw(st.integers(0, 2)) == 0      # Python callables returning the int 0 where they vanish
     if m["share_callables"] and not route.startswith(("potable", "main")) and m["embed"] and m["density"] and draw(st.booleans()):
         # the same definition as embedding function of one element and density of another
         m["density"][0][1] = m["embed"][-1][1]
@@ -265,9 +266,11 @@ def check_case(m):
         elif route.startswith("potable"):
             out = libroute.write_text(libroute.read_text(ctx))
         else:
-            pairs, eams = eamtab.api_objects(m, share=bool(m.get("share_callables")))
+            pairs, eams = eamtab.api_objects(m, share=bool(m.get("share_callables")), int_zero=bool(m.get("int_zero")))
             if m.get("share_callables"):
                 cls.append("shared_callables")
+            if m.get("int_zero"):
+                cls.append("int_typed_zeros")
             api_order = [e.species for e in eams]
             nr, dr, nrho, drho = eamtab.grids(m)
             fp = io.StringIO()
